@@ -575,6 +575,17 @@ def add_semantics_unit(res):
     return res
 
 
+def _matcher_units():
+    """the memory-operand matchers that decide which load/store table row fits an addressing mode (verified for C07; a row
+    without index register must not match an indexed operand, ...): part of this check's closure"""
+    from . import c07
+    out = []
+    for u in c07.units("quick"):
+        if "_is_x86_mem_type" in u.id or "_is_AArch64_mem_type" in u.id:
+            out.append(Unit(u.id.replace("C07/", "C08/table-row-matcher/"), u.fn, u.label, u.functions, decisive=False, timeout=u.timeout))
+    return out
+
+
 def units(tier):
     return [
         Unit("C08/assign_tp_lt/composition/x86", compose_unit("x86"), "Pb",
@@ -586,6 +597,7 @@ def units(tier):
         Unit("C08/assign_tp_lt/row-selection(any number of rows)/aarch64", selection_unit("aarch64"), "P", [(AS, "ArchSemantics.assign_tp_lt")]),
         Unit("C08/get_load_throughput(any number of rows)", table_units("load"), "P", [(HW, "MachineModel.get_load_throughput"), (HW, "MachineModel._match_mem_entries")]),
         Unit("C08/get_store_throughput(any number of rows)", table_units("store"), "P", [(HW, "MachineModel.get_store_throughput"), (HW, "MachineModel._match_mem_entries")]),
+    ] + _matcher_units() + [
         Unit("C08/add_semantics(every line processed exactly once, any kernel length)", add_semantics_unit, "P", [(AS, "ArchSemantics.add_semantics")]),
         bounded_unit("C08/composition-vs-yaml-recomputation", "c08_compose", [(AS, "ArchSemantics.assign_tp_lt"), (AS, "ArchSemantics.add_semantics"), (HW, "MachineModel.__init__")], timeout=2400),
     ]
